@@ -10,7 +10,7 @@
    and reopening, and the verifier process stepping, dying and restarting at any point (EVBegin /
    EVStep / EVCrash), with any result of its setsum checks. *)
 From Coq Require Import NArith List Bool.
-From Blue Require Import Refs.Model Refs.ModelLock Refs.Spec Refs.ProofsCount Refs.ProofsTop Refs.ProofsLock.
+From Blue Require Import Refs.Model Refs.ModelLock Refs.Spec Refs.ProofsCount Refs.ProofsTop Refs.ProofsLock Refs.IngestFault.
 Import ListNotations.
 Open Scope N_scope.
 
@@ -152,3 +152,34 @@ Proof.
   cbn [known_by_name repeat]. right. right. right. left.
   exists (mkEdit [12] [10; 13] None), 10. split; [vm_compute; reflexivity|split; [now left|vm_compute; now left]].
 Qed.
+
+(* 9. I/O errors (not process death) on the ingest path.  Refs/IngestFault.v models LsmTree::_ingest with
+      Manifest::_apply and Manifest::rollover one fallible system call at a time (`prog`), and `ingest false x roll
+      fault s` is the state after an ingest of x in which call number `fault` returned an error (None: no
+      error); i_sst = sst/, i_live = what a reader of mani/MANIFEST reconstructs.  For ANY sequence of ingests,
+      each failing at ANY call or not at all (a poisoned manifest refusing the later ones included): every
+      listed sst is in sst/, and no ingest, failed or not, removes anything from sst/. *)
+Theorem C08_ingest_fault_listed_present : forall (ops : list iop) x,
+  In x (i_live (fold_left istep ops i0)) -> In x (i_sst (fold_left istep ops i0)).
+Proof. exact listed_present. Qed.
+
+Theorem C08_ingest_fault_nothing_removed : forall (ops : list iop) o x,
+  In x (i_sst (fold_left istep ops i0)) -> In x (i_sst (fold_left istep (ops ++ [o]) i0)).
+Proof. exact nothing_removed. Qed.
+
+(* an ingest that reports success has made its sst present and listed *)
+Theorem C08_ingest_success_listed_and_present : forall x roll fault s s',
+  ingest false x roll fault s = (s', true) -> In x (i_sst s') /\ In x (i_live s').
+Proof. exact ingest_ok_listed. Qed.
+
+(* "the ingest failed, so take the hard link back" is wrong: the failure of the roll-over's own hard link
+   (call 6) comes after the edit is in MANIFEST; the witness state lists 7 and sst/ is empty *)
+Theorem C08_ingest_cleanup_on_error_refuted :
+  J i0 /\ ~ J (fst (ingest true 7 true (Some 6%nat) i0)).
+Proof. exact undo_refuted. Qed.
+
+Example C08_example_ingest_fault_states :
+  obs 7 (ingest false 7 true (Some 6%nat) i0) = (true, true, false, [], false, true) /\
+  obs 7 (ingest false 7 true (Some 3%nat) i0) = (true, false, false, [], false, true) /\
+  obs 7 (ingest false 7 true None i0) = (true, true, true, [0], false, false).
+Proof. vm_compute. repeat split; reflexivity. Qed.
